@@ -87,6 +87,73 @@ Definition plain_value (tpl : list part) (pid : list Z) (ctx idx : Z) : result Z
   let nums := instantiate tpl pid ctx idx in
   if forallb (fun x => 0 <=? x) nums then Ok (encode nums) else value_error.
 
+(* ---------------------------------------------------------------- template strings *)
+
+(* UniqueNumericIdGenerator.__init__ on the raw `parts` string:
+     parts = [self._convert(part.strip().lower()) for part in parts.split(",")]
+   with _convert: "pid" | part.isnumeric() -> oct(int(part)) | "index" | "context" | DataGenValueError.
+   Strings are lists of code points.  The model covers ASCII strings exactly (str.strip() removes the
+   ASCII characters for which str.isspace() holds: 9..13, 28..32; str.lower() maps A..Z; str.isnumeric()
+   holds for non-empty strings of 0..9); a string with a code point >= 128 is refused (Unsupported):
+   Unicode case mapping / numeric characters are not modelled. *)
+Definition is_space (c : Z) : bool := ((9 <=? c) && (c <=? 13)) || ((28 <=? c) && (c <=? 32)).
+Definition lower_char (c : Z) : Z := if (65 <=? c) && (c <=? 90) then c + 32 else c.
+Definition is_digit (c : Z) : bool := (48 <=? c) && (c <=? 57).
+
+(* s.split(sep): always at least one chunk *)
+Fixpoint split_on (sep : Z) (s : list Z) : list (list Z) :=
+  match s with
+  | [] => [[]]
+  | c :: r =>
+    if c =? sep then [] :: split_on sep r
+    else match split_on sep r with
+         | [] => [[c]]                      (* unreachable: split_on never returns [] *)
+         | h :: t => (c :: h) :: t
+         end
+  end.
+
+Fixpoint lstrip (s : list Z) : list Z :=
+  match s with
+  | c :: r => if is_space c then lstrip r else s
+  | [] => []
+  end.
+Definition strip (s : list Z) : list Z := rev (lstrip (rev (lstrip s))).
+
+(* int(part) for a string of ASCII digits *)
+Definition dec_value (s : list Z) : Z := from_digits 10 (map (fun c => c - 48) s).
+
+Definition s_pid : list Z := [112; 105; 100].
+Definition s_index : list Z := [105; 110; 100; 101; 120].
+Definition s_context : list Z := [99; 111; 110; 116; 101; 120; 116].
+
+Definition classify (chunk : list Z) : part :=
+  let p := map lower_char (strip chunk) in
+  if list_eqb Z.eqb p s_pid then PPid
+  else if negb (match p with [] => true | _ => false end) && forallb is_digit p then PNum (dec_value p)
+  else if list_eqb Z.eqb p s_index then PIndex
+  else if list_eqb Z.eqb p s_context then PContext
+  else PBad.
+
+Definition parse_template (s : list Z) : result (list part) :=
+  if forallb (fun c => (0 <=? c) && (c <? 128)) s then Ok (map classify (split_on 44 s))
+  else Err Unsupported.
+
+(* the canonical spelling of a template: "pid" / "context" / "index" / decimal digits, joined by "," *)
+Definition print_part (p : part) : list Z :=
+  match p with
+  | PPid => s_pid
+  | PContext => s_context
+  | PIndex => s_index
+  | PNum n => map (fun d => d + 48) (to_digits 10 n)
+  | PBad => [63]                             (* "?" *)
+  end.
+Fixpoint print_template (tpl : list part) : list Z :=
+  match tpl with
+  | [] => []
+  | [p] => print_part p
+  | p :: r => print_part p ++ 44 :: print_template r
+  end.
+
 (* defaults chosen by UniqueId.Functions.NumericIdGenerator / AlphaCodeGenerator *)
 Definition default_numeric_tpl (big : bool) : list part :=
   if big then [PPid; PContext; PIndex] else [PContext; PIndex].
@@ -194,6 +261,123 @@ Section Keyed.
     alpha_string (al_alphabet a) (al_min_chars a) n.
 End Keyed.
 
+(* ---------------------------------------------------------------- one process, any number of runs *)
+
+(* What persists in a Python process across generate_data runs (fresh runs and continuation runs alike)
+   is the class attribute UniqueNumericIdGenerator.context_uniqifier = count(1) and the mask function.
+   Every generator object — made by unique_id / unique_alpha_code / UniqueId.* in any run, re-created
+   from a continuation file (PluginResult._from_continuation builds a NEW object from the saved state, new context
+   number, index restarting at `start`), or the inner number generator of an AlphaUniquifier — takes
+   `next(context_uniqifier)` as the first statement of its constructor (also when the constructor then
+   raises), and owns `count(start)`; every draw takes `next(self.counter)` first (also when the draw
+   then raises).  A run boundary (interpreter exit, plugin close) changes nothing of this state. *)
+
+Inductive gval := VNum (z : Z) | VCode (s : list Z).
+Definition gval_eqb (a b : gval) : bool :=
+  match a, b with
+  | VNum x, VNum y => x =? y
+  | VCode x, VCode y => list_eqb Z.eqb x y
+  | _, _ => false
+  end.
+
+(* a constructed generator: parsed template, pid numbers, and what it does with the number *)
+Inductive rspec :=
+| RNum (tpl : list part) (pid : list Z) (randomize : bool)
+| RAlpha (tpl : list part) (pid : list Z) (a : alpha).
+
+Record lgen := mkLgen { lg_spec : rspec; lg_ctx : Z; lg_next : Z }.
+Record pstate := mkPstate { ps_counter : Z; ps_gens : list lgen }.
+
+Inductive pop :=
+| ONew (r : result (rspec * Z))     (* a constructor call: Ok (spec, start) or the error it raised *)
+| ODraw (g : nat) (n : nat)         (* n draws from the g-th successfully constructed generator *)
+| OBoundary.                        (* end of a generate_data run / start of the next one *)
+
+Fixpoint set_nth {A} (n : nat) (x : A) (l : list A) : list A :=
+  match l, n with
+  | [], _ => []
+  | _ :: r, O => x :: r
+  | y :: r, S k => y :: set_nth k x r
+  end.
+
+(* one step: new state and the (generator, context, index) keys of the values drawn in this step *)
+Definition p_step (s : pstate) (o : pop) : pstate * list (rspec * Z * Z) :=
+  match o with
+  | ONew (Ok (r, start)) =>
+    (mkPstate (ps_counter s + 1) (ps_gens s ++ [mkLgen r (ps_counter s) start]), [])
+  | ONew (Err _) => (mkPstate (ps_counter s + 1) (ps_gens s), [])
+  | ODraw g n =>
+    match nth_error (ps_gens s) g with
+    | Some lg =>
+      (mkPstate (ps_counter s)
+                (set_nth g (mkLgen (lg_spec lg) (lg_ctx lg) (lg_next lg + Z.of_nat n)) (ps_gens s)),
+       map (fun i => (lg_spec lg, lg_ctx lg, i)) (Zseq (lg_next lg) n))
+    | None => (s, [])
+    end
+  | OBoundary => (s, [])
+  end.
+
+Fixpoint p_run (s : pstate) (ops : list pop) : pstate * list (rspec * Z * Z) :=
+  match ops with
+  | [] => (s, [])
+  | o :: r => let '(s1, ks) := p_step s o in
+              let '(s2, ks') := p_run s1 r in (s2, ks ++ ks')
+  end.
+
+(* a process starts with no generators; the counter starts at 1 in the code, any c0 here *)
+Definition p_init (c0 : Z) : pstate := mkPstate c0 [].
+Definition process_keys (c0 : Z) (ops : list pop) : list (rspec * Z * Z) := snd (p_run (p_init c0) ops).
+
+Section Machine.
+  Variable mask : Z -> Z -> Z.
+  Variable nbits : Z -> Z.
+  Variable bpc : Z -> Z.
+
+  (* the value a generator with spec r, context c produces for index i *)
+  Definition rvalue (r : rspec) (c i : Z) : result gval :=
+    match r with
+    | RNum tpl pid rand => do v <- num_value mask nbits tpl pid c i rand; Ok (VNum v)
+    | RAlpha tpl pid a => do s <- alpha_value mask nbits bpc a tpl pid c i; Ok (VCode s)
+    end.
+
+  Definition key_value (k : rspec * Z * Z) : result gval :=
+    let '(r, c, i) := k in rvalue r c i.
+
+  (* every value drawn in the process, in order *)
+  Definition process_values (c0 : Z) (ops : list pop) : list (result gval) :=
+    map key_value (process_keys c0 ops).
+End Machine.
+
+(* two generators whose values the property compares: same template, same number of pid chunks, and
+   either both numeric with the same randomize flag or both alphabetic over the same alphabet with the
+   same randomize_codes flag *)
+Definition comparable (r r' : rspec) : Prop :=
+  match r, r' with
+  | RNum tpl pid rand, RNum tpl' pid' rand' => tpl = tpl' /\ length pid = length pid' /\ rand = rand'
+  | RAlpha tpl pid a, RAlpha tpl' pid' a' =>
+    tpl = tpl' /\ length pid = length pid' /\ al_alphabet a = al_alphabet a' /\
+    al_randomize a = al_randomize a' /\ NoDup (al_alphabet a) /\ (2 <= length (al_alphabet a))%nat
+  | _, _ => False
+  end.
+Definition spec_tpl (r : rspec) : list part :=
+  match r with RNum tpl _ _ => tpl | RAlpha tpl _ _ => tpl end.
+
+(* the counter of the inner generator of an AlphaUniquifier starts at 1001 *)
+Definition alpha_start : Z := 1001.
+
+(* constructor arguments as the implementation received them *)
+Inductive pspec :=
+| SNum (src : list Z) (pid : list Z) (start : Z) (randomize : bool)
+| SAlpha (src : list Z) (pid : list Z) (alphabet : option (list Z)) (min_chars : Z) (rc : bool).
+
+Definition resolve (sp : pspec) : result (rspec * Z) :=
+  match sp with
+  | SNum src pid start rand =>
+    do tpl <- parse_template src; do _ <- gen_new_ok tpl; Ok (RNum tpl pid rand, start)
+  | SAlpha src pid abc mc rc =>
+    do tpl <- parse_template src; do a <- alpha_new tpl abc mc rc; Ok (RAlpha tpl pid a, alpha_start)
+  end.
+
 (* ---------------------------------------------------------------- correspondence cases *)
 
 (* one call of scramble_number with the observed values of int(log)+1 and of the mask *)
@@ -215,13 +399,67 @@ Inductive gcase :=
 | GFacNum (big : bool) (user : option (list part)) (pid : list Z) (ctx : Z) (draws : list draw)
 | GFacAlpha (big : bool) (user : option (list part)) (pid : list Z) (ctx : Z)
             (alphabet : option (list Z)) (min_chars : Z) (randomize_codes : bool) (bpc_obs : Z)
-            (draws : list adraw).
+            (draws : list adraw)
+(* the template as the string the implementation received: the model parses it (parse_template) and
+   hands the parts to the continuation *)
+| GParsed (src : list Z) (k : list part -> gcase).
+
+(* One observed process: the trace of constructor calls and draws over all its runs.
+   ENew: constructor arguments and outcome (None = constructed);  EDraw: one draw of the g-th generator
+   with the int(log)+1 value observed during that draw and the value / error it gave;  ESkip: n draws
+   whose values are not compared (they still advance the index);  EBoundary: a run ended. *)
+Inductive pevent :=
+| ENew (sp : pspec) (outcome : option err)
+| EDraw (g : nat) (nb : Z) (expected : result gval)
+| ESkip (g : nat) (n : nat)
+| EBoundary.
 
 Inductive case :=
 | CScramble (items : list sitem)
 | CUnscramble (items : list uitem)
 | CBase (alphabet : list Z) (items : list (Z * result (list Z)))
-| CGens (gens : list gcase).
+| CGens (gens : list gcase)
+(* c0 = value of the process-wide counter before the first constructor call;  masks = the observed
+   mask_for_key table of the WHOLE process (key, numbits, first mask seen): one function for all runs;
+   bpcs = observed int(log(size, 2)) per alphabet size *)
+| CProc (c0 : Z) (masks : list (Z * Z * Z)) (bpcs : list (Z * Z)) (events : list pevent).
+
+Definition tab_mask (t : list (Z * Z * Z)) (key nb : Z) : Z :=
+  match find (fun e => (fst (fst e) =? key) && (snd (fst e) =? nb)) t with
+  | Some e => snd e
+  | None => 0
+  end.
+Definition tab_bpc (t : list (Z * Z)) (size : Z) : Z :=
+  match find (fun e => fst e =? size) t with
+  | Some e => snd e
+  | None => 0
+  end.
+
+Definition gres_eqb := result_eqb gval_eqb.
+
+(* replay the trace on the machine p_step; every compared draw must give the observed value *)
+Fixpoint check_events (mask : Z -> Z -> Z) (bpc : Z -> Z) (s : pstate) (evs : list pevent) : bool :=
+  match evs with
+  | [] => true
+  | ENew sp outcome :: r =>
+    let res := resolve sp in
+    match res, outcome with
+    | Ok _, None => check_events mask bpc (fst (p_step s (ONew res))) r
+    | Err e, Some e' => err_eqb e e' && check_events mask bpc (fst (p_step s (ONew res))) r
+    | _, _ => false
+    end
+  | EDraw g nb expected :: r =>
+    match p_step s (ODraw g 1) with
+    | (s1, [k]) => gres_eqb (key_value mask (fun _ => nb) bpc k) expected && check_events mask bpc s1 r
+    | _ => false
+    end
+  | ESkip g n :: r =>
+    match nth_error (ps_gens s) g with
+    | Some _ => check_events mask bpc (fst (p_step s (ODraw g n))) r
+    | None => false
+    end
+  | EBoundary :: r => check_events mask bpc (fst (p_step s OBoundary)) r
+  end.
 
 Definition zres_eqb := result_eqb Z.eqb.
 Definition lres_eqb := result_eqb (list_eqb Z.eqb).
@@ -231,9 +469,6 @@ Definition check_draw tpl pid ctx start randomize (d : draw) : bool :=
   | Draw k nb m e =>
     zres_eqb (num_value (fun _ _ => m) (fun _ => nb) tpl pid ctx (start + k) randomize) e
   end.
-
-(* the counter of the inner generator of an AlphaUniquifier starts at 1001 *)
-Definition alpha_start : Z := 1001.
 
 Definition check_adraw a tpl pid ctx bpc_obs (d : adraw) : bool :=
   match d with
@@ -254,7 +489,7 @@ Definition check_alpha tpl pid ctx alphabet min_chars rc bpc_obs draws : bool :=
   | Err _ => false
   end.
 
-Definition check_gcase (g : gcase) : bool :=
+Fixpoint check_gcase (g : gcase) : bool :=
   match g with
   | GNum tpl pid ctx start randomize draws => check_num tpl pid ctx start randomize draws
   | GNumErr tpl e => result_eqb (fun _ _ => true) (gen_new_ok tpl) (Err e)
@@ -267,6 +502,11 @@ Definition check_gcase (g : gcase) : bool :=
   | GFacAlpha big user pid ctx alphabet min_chars rc bpc_obs draws =>
     check_alpha (factory_tpl (default_alpha_tpl big) user) pid ctx alphabet min_chars rc
                 bpc_obs draws
+  | GParsed src k =>
+    match parse_template src with
+    | Ok tpl => check_gcase (k tpl)
+    | Err _ => false
+    end
   end.
 
 Definition check_case (c : case) : bool :=
@@ -282,6 +522,7 @@ Definition check_case (c : case) : bool :=
   | CBase alphabet items =>
     forallb (fun it => lres_eqb (base_encode alphabet (fst it)) (snd it)) items
   | CGens gens => forallb check_gcase gens
+  | CProc c0 masks bpcs events => check_events (tab_mask masks) (tab_bpc bpcs) (p_init c0) events
   end.
 
 (* ---------------------------------------------------------------- process-level view *)
